@@ -20,6 +20,7 @@
 """ICalendar file handling."""
 
 import logging
+import re
 from collections.abc import Iterable
 from datetime import datetime, time, timedelta, timezone
 from typing import Callable, Optional, Union
@@ -478,6 +479,15 @@ class ComponentTimeRangeMatcher:
         return [["P=" + prop] for prop in props]
 
 
+def _unescape_text(text: str) -> str:
+    """Undo the escaping of TEXT values (RFC 5545, section 3.3.11)."""
+    return re.sub(
+        r"\\([\\;,nN])",
+        lambda m: "\n" if m.group(1) in "nN" else m.group(1),
+        text,
+    )
+
+
 class TextMatcher:
     def __init__(
         self,
@@ -498,10 +508,19 @@ class TextMatcher:
     def __repr__(self) -> str:
         return f"{self.__class__.__name__}({self.name!r}, {self.text!r}, collation={self.collation!r}, negate_condition={self.negate_condition!r})"
 
+    def _value_from_index(self, k: bytes):
+        # The index holds the output of to_ical(), in which TEXT is escaped;
+        # from_ical() of the value types does not undo that.
+        if isinstance(self.type_fn, type) and issubclass(self.type_fn, vCategory):
+            cats = re.split(r"(?<!\\),", k.decode("utf-8"))
+            return vCategory([_unescape_text(cat) for cat in cats])
+        value = self.type_fn(self.type_fn.from_ical(k))
+        if isinstance(value, vText):
+            value = vText(_unescape_text(str(value)))
+        return value
+
     def match_indexes(self, indexes: SubIndexDict):
-        return any(
-            self.match(self.type_fn(self.type_fn.from_ical(k))) for k in indexes[None]
-        )
+        return any(self.match(self._value_from_index(k)) for k in indexes[None])
 
     def match(self, prop: Union[vText, vCategory, str]):
         # RFC 4791, section 9.7.5: text-match is a substring match
